@@ -263,6 +263,21 @@ impl Report {
                 detail,
             });
         }
+        // Under the interpreter every recorded violation costs milliseconds; a tree on which most cases fail would run into
+        // the watchdog (inconclusive) although hundreds of violations are in hand. Enough is enough: write the report, stop.
+        if cfg!(miri) && self.viol_counts.values().sum::<u64>() >= 300 {
+            self.notes.push("stopped early: 300 violations recorded under the interpreter".into());
+            let e = emergency();
+            let wall = e.t0.map(|t| t.elapsed().as_secs_f64()).unwrap_or(0.0);
+            let js = self.to_json(e.seed, e.shard, wall).to_string();
+            match &e.out {
+                Some(p) => {
+                    let _ = std::fs::write(p, js);
+                }
+                None => println!("{}", js),
+            }
+            std::process::exit(1);
+        }
     }
     pub fn violation(&mut self, sig: &str, detail: J) {
         let p = self.prop.clone();
